@@ -54,6 +54,8 @@ func WithNoLoggingImpersonation(handler http.Handler, a authorizer.Authorizer, s
 			return
 		}
 		if len(impersonationRequests) == 0 {
+			// nothing of the Impersonate-* family (e.g. Impersonate-Uid) may reach the upstream as the client sent it
+			clearImpersonationHeaders(req.Header)
 			handler.ServeHTTP(w, req)
 			return
 		}
@@ -168,16 +170,20 @@ func WithNoLoggingImpersonation(handler http.Handler, a authorizer.Authorizer, s
 		audit.LogImpersonatedUser(ae, newUser)
 
 		// clear all the impersonation headers from the request
-		req.Header.Del(authenticationv1.ImpersonateUserHeader)
-		req.Header.Del(authenticationv1.ImpersonateGroupHeader)
-		for headerName := range req.Header {
-			if strings.HasPrefix(headerName, authenticationv1.ImpersonateUserExtraHeaderPrefix) {
-				req.Header.Del(headerName)
-			}
-		}
+		clearImpersonationHeaders(req.Header)
 
 		handler.ServeHTTP(w, req)
 	})
+}
+
+// clearImpersonationHeaders deletes every client supplied header of the Impersonate-* family
+// (user, group, extra and any other member such as Impersonate-Uid); the gateway generates its own.
+func clearImpersonationHeaders(headers http.Header) {
+	for headerName := range headers {
+		if strings.HasPrefix(headerName, "Impersonate-") {
+			headers.Del(headerName)
+		}
+	}
 }
 
 func unescapeExtraKey(encodedKey string) string {
